@@ -115,6 +115,19 @@ def far_case(n, kind):
     return Case([inst.open_line(1, n)] + lines + [{"op": "archive.close", "h": 1, "case": n}], desc={"far offsets": kind})
 
 
+def odd_path_case(n, kind):
+    """stored paths with an empty file name or an empty folder component: hashed like any other (split at the last '/')"""
+    inst = Installation([0], 0)
+    lines = []
+    for i, path in enumerate(["bg/odd/", "bg//file.tex", "bg/a//b.tex", "bg/x/y/", "bg///"]):
+        inst.add_entry(0, 2, 0, kind, list(path.encode()), 0, (16 + i) * 128)
+        for qk in ("exists", "find_offset"):
+            lines.append({"op": "archive.query", "h": 1, "case": n, "q": qk, "path": list(path.encode())})
+    for path in ["bg/odd", "bg/file.tex", "bg/a/b.tex"]:                  # the tidied-up spellings are other paths
+        lines.append({"op": "archive.query", "h": 1, "case": n, "q": "exists", "path": list(path.encode())})
+    return Case([inst.open_line(1, n)] + lines + [{"op": "archive.close", "h": 1, "case": n}], desc={"odd paths": kind})
+
+
 def sweep_case(n, cat, ex, chunk, plat):
     """one path per data file dat0..dat7, all at the same offset, each with its own content; every query kind on each"""
     inst = Installation([0, ex], plat)
@@ -156,6 +169,7 @@ def check(run):
     base = len(cases)
     for i, kind in enumerate([1, 2]):
         cases.append(far_case(base + i, kind))
+        cases.append(odd_path_case(base + 2 + i, kind))
     run.rule = ("one query history per transition (layout, memo before, call, memo after) of the bounded handle model (TLC VIEW; "
                 "913 layouts of <= 2 stored paths over chunk x index/index2/both x dat, 8 probe paths incl. case twins, fallback, "
                 "unknown category; histories <= 3 calls; quick replays a seeded 6%), plus stratified random installations (all 15 "
